@@ -18,6 +18,8 @@ def _io(k, kind, name, data):
     """transport-level history: (seq, task, kind, endpoint, bytes) for oracles"""
     seq = k.log(kind, name, data)
     k.io.append((seq, k.current.name if k.current is not None else 'sched', kind, name, data))
+    if data:
+        k.progress()
     return seq
 
 
@@ -319,8 +321,9 @@ class SimDatagramSocket(object):
                 self.k.log('recvfrom-timeout', self.name)
                 raise _real_socket.timeout('timed out')
         data, src = self.rxq.popleft()
+        data = data[:size]              # a datagram read with a smaller buffer is truncated
         _io(self.k, 'recv', self.name, data)
-        return data[:size], src
+        return data, src
 
     def close(self):
         self.closed = True
